@@ -610,6 +610,16 @@ def catalogue(big=False):
                       pipeline("TOP", "", "map<int>[][] o",
                                [call("INNER", binds={"m": split(lit([{"x": 1, "y": 2}, {"x": 3, "y": 4, "z": 5}]))}, mode="array")],
                                {"o": ref("INNER", "seen")})], "TOP", {}))
+    # a struct literal with a member resolved at run time next to literal typed-map and untyped
+    # map members whose keys are not identifiers
+    P.append(program("struct_literal_mixed", [struct("BOX", "map<int> by_name, int n, map bag")],
+                     [S_echo("A"), stage("U", "BOX box, int w", "string r", {"r": INST}), S_echo("V", "map<int>", "m", "o")],
+                     [pipeline("TOP", "int x", "string r, map<int> o",
+                               [call("A", binds={"x": self_("x")}),
+                                call("U", binds={"box": objx(by_name=lit({"we ird": 1, "b": 2}), n=ref("A", "y"), bag=lit({"k k": 3, "z": [1]})),
+                                                 "w": ref("A", "y")}),
+                                call("V", binds={"m": lit({"we ird": 1, "b": 2})})],
+                               {"r": ref("U", "r"), "o": ref("V", "o")})], "TOP", {"x": 1}))
     P.append(program("proj2d", [struct("PT", "int x, int y")],
                      [S_const("G", "PT[][] grid", {"grid": [[{"x": 1, "y": 2}, {"x": 3, "y": 4}], [{"x": 5, "y": 6}]]}),
                       S_echo("E", "int[][]", "xs", "ys")],
